@@ -212,6 +212,9 @@ def gen(rng, tier):
         s = S.build(rng, nchains=rng.choice([1, 2]), anchor=None)
         m = s.clone(); m.chains[-1].algo = rng.choice([3, 6, 7, 0x7e, 0xff, 0x100, 0x101, (1 << 32) + 1, 1 << 63]); yield line(m, label="algo")
         m = s.clone(); m.chains[0].links[0].lc = rng.choice([0xfe, 0xff, 0x100, 1 << 32, (1 << 64) - 1]); yield line(m, label="lc")
+        # a level correction that makes the level wrap around to a consistent-looking value: everything above it recomputed modulo 256
+        m = s.clone(); k = rng.randrange(len(m.chains)); j = rng.randrange(len(m.chains[k].links))
+        m.chains[k].links[j].lc = rng.choice([(1 << 64) - 1, (1 << 64) - 1, (1 << 32) - 1, 1 << 32, (1 << 64) - 2, 0x100, 0x1ff]); m.relink(); yield line(m, label="lc-out-of-range")
         m = s.clone(); m.chains[0].links = m.chains[0].links * 20; m.chains[0].index[-1] = m.chains[0].shape() & ((1 << 64) - 1); yield line(m, label="long")
         m = s.clone(); m.chains[0].index = []
         for c in m.chains[1:]: pass
